@@ -4,5 +4,6 @@ CONSTANTS
   LeaveFix = TRUE
   MaxResets = 1
   Faults = TRUE
+  MaxProcs = 2
 INVARIANT TypeOK
 CHECK_DEADLOCK FALSE
